@@ -15,13 +15,6 @@ FINDINGS = {
         "tiers": ["quick", "thorough"],
         "match": lambda r: r["kind"] == "not-exhaustive" and ".." in r["case"]["query"],
     },
-    "F-C05-1": {
-        "property": "C05",
-        "tiers": ["quick", "thorough"],
-        "match": lambda r: r["kind"] == "rejected-well-typed"
-        and re.match(r"unexpected '[!(]'", r["observed"].get("msg", "")) is not None
-        and re.search(r"[(,]\s*[!(]", r["case"]["query"][3:]) is not None,
-    },
 }
 
 
